@@ -20,8 +20,8 @@ for root, dirs, files in os.walk(os.path.join(repo, 'spyne')):
         except SyntaxError:
             continue
         t = {q: v for q, v in alpha.module_table(tree).items() if v}
-        if t:
-            out[rel] = t
+        t['__functions__'] = sorted(q for q, _ in alpha.outer_functions(tree))
+        out[rel] = t
 txt = json.dumps(out, indent=0, sort_keys=True)
 if '--check' in sys.argv:
     cur = open(alpha.TABLE_FILE).read() if os.path.exists(alpha.TABLE_FILE) else ''
@@ -32,5 +32,6 @@ if '--check' in sys.argv:
 else:
     open(alpha.TABLE_FILE, 'w').write(txt + '\n')
     print('%d modules, %d functions, %d locals' % (
-        len(out), sum(len(v) for v in out.values()),
-        sum(len(x) for v in out.values() for x in v.values())))
+        len(out), sum(len(v['__functions__']) for v in out.values()),
+        sum(len(x) for v in out.values() for k, x in v.items()
+            if k != '__functions__')))
